@@ -579,6 +579,13 @@ static Type *declspec(Token **rest, Token *tok, VarAttr *attr) {
   if (is_atomic) {
     ty = copy_type(ty);
     ty->is_atomic = true;
+
+    // An atomic type whose size is a power of two up to 16 is aligned
+    // to its size, so that it can be accessed by one instruction;
+    // gcc and clang lay out _Atomic structs and unions that way.
+    if ((ty->kind == TY_STRUCT || ty->kind == TY_UNION) && ty->size <= 16 &&
+        ty->size > ty->align && (ty->size & (ty->size - 1)) == 0)
+      ty->align = ty->size;
   }
 
   *rest = tok;
